@@ -56,4 +56,35 @@ def proposalRun {σ : Type} (P : Program) (infos : List MsgInfo) (env : Env) (au
   else if (accAddress env.cfg auth).isNone || accAddress env.cfg auth != accAddress env.cfg env.gov then (.submit, (.err, s))
   else (.msgs, onBranch (routed P infos env auth W payloadOk T m msg) s)
 
+/-! ## a whole block (round 4)
+
+`FinalizeBlock` runs the transactions of a block one after the other through `runTx` on the block's state: each sees the
+state its predecessors left (a failed transaction leaves what the ante handler did — fee, sequence — which is outside `σ`,
+the state privileged handlers write).  Tied by the `blk` lines: several signed transactions in one block through the
+real `FinalizeBlock` + `Commit`. -/
+
+/-- one transaction of a block: one privileged message (the registered type and method serving it, its message type),
+the environment of its guards, the rest of its handler, its authority, the verdict of the rest of `ValidateBasic`, and
+the account whose key signed the transaction -/
+structure BlockTx (σ : Type) where
+  env : Env
+  W : World σ
+  T : String
+  m : String
+  msg : String
+  auth : Str
+  payloadOk : Bool
+  signer : List Nat
+
+def BlockTx.run {σ : Type} (P : Program) (infos : List MsgInfo) (t : BlockTx σ) (s : σ) : TxStage × (Res × σ) :=
+  txRun P infos t.env t.auth t.W t.payloadOk t.T t.m t.msg t.signer s
+
+/-- the transactions of a block in order: the stage and result of each, and the state after the block -/
+def blockRun {σ : Type} (P : Program) (infos : List MsgInfo) : List (BlockTx σ) → σ → List (TxStage × Res) × σ
+  | [], s => ([], s)
+  | t :: ts, s =>
+    let r := t.run P infos s
+    let rest := blockRun P infos ts r.2.2
+    ((r.1, r.2.1) :: rest.1, rest.2)
+
 end FxVerif.Model.C16
